@@ -290,6 +290,40 @@ def huge_shift_cases(tier):
     return cases
 
 
+def word_threshold_cases():
+    """deterministic block 5: moduli at the word thresholds (just below / above 2^32, 2^53, 2^63, 2^64, 2^128; primes and composites)
+    through EVERY default-bound entry point (k = sqrt m computed by the library: rr4.*, qf, qf.dflt) and, with k = isqrt(m) given,
+    through the other forms; residues: fractions inside the envelope (python isqrt), 1 and m - 1"""
+    cases = []
+    vs = [v for v in sorted(VARIANTS) if not v.endswith(".init")]
+    mods = []
+    for e in (32, 53, 63, 64, 128):
+        mods += [(1 << e) - 1, (1 << e) + 1, (1 << e), next_prime((1 << e) + 2)]
+        q = (1 << e) - 1
+        while not is_probable_prime(q): q -= 2
+        mods.append(q)
+    mods += [(1 << 64) - 59, (1 << 64) - (1 << 32) + 1, (1 << 64) - (1 << 32), (1 << 64) - (1 << 32) + 2, (1 << 64) + 13, (1 << 63) - 25, (1 << 53) - 111]
+    for mi, m in enumerate(sorted(set(mods))):
+        s = isqrt(m); e4 = s // 4
+        fr = []
+        for a, b in ((e4, e4 - 1), (-3, 7), (1, e4)):
+            while b > 1 and (math.gcd(b, m) != 1 or math.gcd(a, b) != 1): b -= 1
+            if math.gcd(b, m) == 1 and math.gcd(a, b) == 1 and 4 * abs(a) <= s and 4 * b <= s:
+                fr.append((a * pow(b, -1, m) % m, (a, b)))
+        for (f, frac) in fr + [(1, (1, 1)), (m - 1, (-1, 1))]:
+            for vi, v in enumerate(vs):
+                op, nargs, mp, _ = VARIANTS[v]
+                if op == "rr6": continue
+                dflt = op in ("rr4", "qf")
+                if not dflt and (".al" in v or (vi + mi) % 3 != 0): continue
+                full = [f, m] if dflt else [f, m, s]
+                nflags = nargs - len(full)
+                for bits in range(1 << nflags):
+                    ia = full + [(bits >> j) & 1 for j in range(nflags)]
+                    cases.append((v, op, ia, mp(list(ia)), frac, "word-threshold", "grid"))
+    return cases
+
+
 def init_flag_cases():
     """deterministic block 0 (must be the first lines the harness sees): Rational(f,m,k,recurs) and both QField<Rational>::ratrecon
     forms before anything has called SetReduce / SetNoReduce, on inputs whose first candidate is not coprime"""
@@ -603,6 +637,7 @@ def gen_cases(rng, tier, chk):
     cases += grid_cases(tier)
     cases += envelope_cases(tier)
     cases += rr6_boundary_cases(tier)
+    cases += word_threshold_cases()
     return init_flag_cases() + cases           # the initial-flags block first: nothing has touched Rational::flags yet
 
 
